@@ -162,9 +162,11 @@ class Alternative(ElseIf, ConclusionSelector):
         outputs = super()._evaluate__(sources, parent=parent)
         for output in outputs:
             # Only yield if conclusions were successfully added (not duplicates)
-            if not self.left._is_false_:
+            # Which branch produced the output is recorded on this node. The truth flags of the operands can be changed by
+            # another query that uses the same condition and runs while this evaluation is suspended.
+            if self.left_evaluated:
                 self.update_conclusion(output, self.left._conclusion_)
-            elif not self.right._is_false_:
+            elif self.right_evaluated and not output.is_false:
                 self.update_conclusion(output, self.right._conclusion_)
             yield OperationResult(output.bindings, self._is_false_, self)
             self._conclusion_.clear()
